@@ -42,6 +42,7 @@ type saoWorld struct {
 	nCommit   int
 	longRun   bool
 	exportEvery int
+	grants      map[string]*owner // data id -> read-write grantee
 }
 
 func (w *saoWorld) newDataId() string {
@@ -305,6 +306,9 @@ func (w *saoWorld) update(mut string) {
 		op = 2
 	}
 	signerOwner := o
+	if g, ok := w.grants[dataId]; ok && mut == "" && rng.Intn(3) == 0 {
+		signerOwner = g // a read-write grantee may update the content
+	}
 	switch mut {
 	case "stale-base":
 		commitId = w.newCommit() + "|" + newCommit
@@ -318,6 +322,8 @@ func (w *saoWorld) update(mut string) {
 		signerOwner = w.attOwner
 	case "grantee":
 		signerOwner = w.owners[(rng.Intn(len(w.owners)))]
+	case "readonly":
+		signerOwner = w.sponsor // the sponsor DID only ever gets read-only access
 	}
 	p := w.proposal(signerOwner, gw, dataId, commitId, op, uint64(500000+rng.Intn(3)*500000), int32(1+rng.Intn(2)), []uint64{3600, 7200}[rng.Intn(2)], 50)
 	jws := SignJWS(&p, signerOwner.key, signerOwner.kid)
@@ -340,6 +346,13 @@ func (w *saoWorld) renew(mut string) {
 	}
 	if mut == "stranger" {
 		o = w.attOwner
+	}
+	if mut == "grantee" {
+		if g, ok := w.grants[dataId]; ok {
+			o = g // renewals are owner-only: a grantee's must be refused
+		} else {
+			o = w.owners[rng.Intn(len(w.owners))]
+		}
 	}
 	gw := w.gateways[rng.Intn(len(w.gateways))]
 	data := []string{dataId}
@@ -376,6 +389,12 @@ func (w *saoWorld) terminate(mut string) {
 	if mut == "stranger" {
 		o = w.attOwner
 	}
+	if g, ok := w.grants[dataId]; ok && (mut == "grantee" || (mut == "" && rng.Intn(4) == 0)) {
+		o = g
+	}
+	if mut == "readonly" {
+		o = w.sponsor
+	}
 	gw := w.gateways[rng.Intn(len(w.gateways))]
 	p := saotypes.TerminateProposal{Owner: o.did, DataId: dataId}
 	jws := SignJWS(&p, o.key, o.kid)
@@ -409,7 +428,10 @@ func (w *saoWorld) permission(mut string) {
 		p.ReadwriteDids = []string{"did:key:unknown"}
 	}
 	jws := SignJWS(&p, o.key, o.kid)
-	w.r.UpdatePermission(gw, &saotypes.MsgUpdataPermission{Creator: gw.Bech(), Proposal: p, JwsSignature: jws, Provider: gw.Bech()})
+	res := w.r.UpdatePermission(gw, &saotypes.MsgUpdataPermission{Creator: gw.Bech(), Proposal: p, JwsSignature: jws, Provider: gw.Bech()})
+	if res.Class == "ok" {
+		w.grants[dataId] = grantee
+	}
 }
 
 func (w *saoWorld) cancel(mut string) {
@@ -569,7 +591,7 @@ func weighted(rng *rand.Rand, muts []string, pMal int) string {
 }
 
 func runSaoHistory(r *Recorder, rng *rand.Rand, accts []*Account, nOps int, long bool, exportEvery int) {
-	w := &saoWorld{rng: rng, r: r, c: r.c, longRun: long, exportEvery: exportEvery}
+	w := &saoWorld{rng: rng, r: r, c: r.c, longRun: long, exportEvery: exportEvery, grants: map[string]*owner{}}
 	w.setup(accts)
 	done := 0
 	maxBlocks := 400
@@ -590,12 +612,12 @@ func runSaoHistory(r *Recorder, rng *rand.Rand, accts []*Account, nOps int, long
 			case x < 45:
 				w.completeSome(weighted(rng, []string{"wrong-size", "zero-size", "bad-cid", "not-assigned", "impersonate", "attacker-node"}, 15))
 			case x < 55:
-				w.update(weighted(rng, []string{"stale-base", "prefix-base", "empty-base", "embed-dataid", "stranger", "grantee"}, 30))
+				w.update(weighted(rng, []string{"stale-base", "prefix-base", "empty-base", "embed-dataid", "stranger", "grantee", "readonly"}, 30))
 			case x < 63:
-				w.renew(weighted(rng, []string{"stranger", "too-long", "attacker-relay"}, 20))
+				w.renew(weighted(rng, []string{"stranger", "too-long", "attacker-relay", "grantee", "grantee"}, 30))
 			case x < 68:
-				w.terminate(weighted(rng, []string{"stranger", "tampered"}, 25))
-			case x < 73:
+				w.terminate(weighted(rng, []string{"stranger", "tampered", "grantee", "readonly"}, 30))
+			case x < 75:
 				w.permission(weighted(rng, []string{"stranger", "bad-did"}, 25))
 			case x < 80:
 				w.cancel(weighted(rng, []string{"attacker-own-node", "attacker-names-gateway", "other-gateway"}, 30))
